@@ -264,6 +264,17 @@ example : TsnFifo (moved PX (init PX) opsX) (written (init PX).snd (NetSys.sndOp
 set_option maxRecDepth 1000000 in
 example : pushed PX (init PX) opsX = [4294967295#32, 0#32, 1#32] := by decide
 
+-- test (receive half alone, by evaluation): stream 3, message 0 (one fragment) abandoned and never delivered, message 1 (two
+-- fragments) reliable. The FORWARD-TSN naming (3, SSN 0) arrives FIRST (the stream does not exist yet), then the fragments
+-- of message 1 in reverse order with a duplicate, then a stale copy of the FORWARD-TSN: message 1 is read, whole, once.
+private def SR : Reasm.Sender := { si := 3, t0 := 100, msgs := [{ ppi := 60, frags := [[1]] }, { ppi := 61, frags := [[2], [3]] }] }
+private def opsR : List Receiver.Op :=
+  [.pkt [.fwd 100 [(3, 0)]], .pkt [.data (SR.dataFrag 1 1) false, .data (SR.dataFrag 1 1) false], .read (3, 0) 100,
+   .pkt [.data (SR.dataFrag 1 0) false, .fwd 100 [(3, 0)]], .read (3, 0) 100, .read (3, 0) 100]
+set_option maxRecDepth 1000000 in
+example : Receiver.delivs 3 (Receiver.init 65536 0 false true false 0 100) opsR = [(61, [2, 3])] ∧
+    Receiver.pushedT (Receiver.init 65536 0 false true false 0 100) opsR = [102#32, 101#32] := by decide
+
 /-- **Soundness of the SACKs is necessary.** Same workload; nothing of the first gather reaches the receiver, yet a SACK
 acknowledges TSN 0 cumulatively (NOT sound: the receiver's point is 2^32 − 3). The sender pops message 0 and the RELIABLE message 1,
 advances over the abandoned message 2 and emits FORWARD-TSN(1, [(2, 1)]); the receiver takes it and its cumulative point passes
